@@ -46,20 +46,65 @@ class C09(Prop):
     def native_prefix_check(self, key, table="elements"):
         import vyxal.elements as el
 
+        import sympy
+        import vyxal.helpers  # noqa
+        from vyxal.LazyList import LazyList
+
         tpl, arity = (el.elements[key][0], el.elements[key][1]) if table == "elements" else (el.modifiers[key], 0)
-        for args in ARGSETS:
+        lazy_sets = [lambda: [LazyList(iter([4, 6, 8])), 3, 2], lambda: [5, LazyList(iter([1, 2])), "a"], lambda: [sympy.Rational(1, 2), 3, LazyList(iter([2, 3]))],
+                     lambda: [LazyList(iter([1, 2, 3])), LazyList(iter([4, 5])), LazyList(iter(["a"]))]]
+        for mk in [(lambda a=a: list(a)) for a in ARGSETS] + lazy_sets:
+            args = mk()
             prefix = [Sentinel(0), Sentinel(1)]
-            stack = list(prefix) + list(args[: max(arity, 0)])
+            # the arguments are the LAST `arity` entries of the set, so that the top of the stack varies in type
+            stack = list(prefix) + list(args[len(args) - max(arity, 0):] if arity > 0 else [])
             ns, ctx, stack = rc.fresh_ns((7, 8), stack)
             err, out = rc.run_code(tpl, ns, 3)
-            if err is not None:
-                continue
             st = ns["stack"]
+            if err is not None:
+                # an element may fail on arguments it is not defined for, but not after reaching below its arguments
+                if len(st) < 2 or st[0] is not prefix[0] or st[1] is not prefix[1]:
+                    return dict(element=key, arity=arity, arguments=repr(args[len(args) - max(arity, 0):])[:120], stack_after=repr(st)[:200], error=str(err)[:120])
+                continue
             if len(st) < 2 or st[0] is not prefix[0] or st[1] is not prefix[1]:
                 return dict(element=key, arity=arity, arguments=repr(args[:arity]), stack_after=repr(st)[:200])
+            if any(isinstance(a, LazyList) for a in args):
+                # a lazy list denotes the list it enumerates: the same element on the eager twin of the arguments
+                # must consume and leave the same number of entries
+                twin = [list(x) if isinstance(x, LazyList) else x for x in mk()]
+                stack2 = [Sentinel(0), Sentinel(1)] + list(twin[len(twin) - max(arity, 0):] if arity > 0 else [])
+                ns2, ctx2, _ = rc.fresh_ns((7, 8), stack2)
+                err2, _ = rc.run_code(tpl, ns2, 3)
+                if err2 is None and len(ns2["stack"]) != len(st):
+                    return dict(element=key, arity=arity, arguments=repr(twin[len(twin) - max(arity, 0):])[:120], entries_after_with_lists=len(ns2["stack"]), entries_after_with_lazy_lists=len(st), stack_after=repr(rc.simp(st[2:]))[:160])
             if ctx.retain_popped:
                 return dict(element=key, arity=arity, arguments=repr(args[:arity]), retain_popped_left_set=True)
         return None
+
+    def sweep(self):
+        import vyxal.elements as el
+        from contracts.templates import WHOLE_STACK
+
+        skip = set(WHOLE_STACK) | {"Q", "□", "¨U", "?", "_"}  # exit, stdin, network; `?` and `_` are covered by their contracts
+        n = 0
+        for k in sorted(el.elements):
+            if k in skip:
+                continue
+            n += 1
+            try:
+                w = self.native_prefix_check(k)
+            except Exception as e:  # noqa
+                w = None
+            if w:
+                return w, n
+        return None, n
+
+    def bounded(self, W, tier, seed):
+        w, n = self.sweep()
+        return [dict(name="C09/bounded-prefix-sweep", what="every element template of the live table (whole-stack operations excepted) run on two sentinel entries plus arguments of its arity drawn from integers, rationals, strings, nested and lazy lists: the sentinels must still be the two bottom entries (same objects), also when the element raises; with lazy-list arguments the number of entries left must equal that of the same call on plain lists", bound="all elements x 9 argument sets", evaluations=n, label="bounded", failures=[w] if w else [])]
+
+    def stale_search(self, W, key, seed):
+        return self.sweep()[0]
 
     def replay(self, W, report, ob):
         m = re.search(r"elements\[(.+?)\]/", ob["name"])
